@@ -307,6 +307,7 @@ fn eval_case(ctx: &mut Ctx, tools: &mut Tools, idx: usize, case: &Case) {
                     // an explicit refusal: the span must then be accounted for by the harness's own reading
                     match expand_lup(g) {
                         Some(b) => {
+                            tag = format!("E:{}", hx(&b));
                             ctx.out.oracle(b.as_slice() == want, "line-reassembles-to-its-span", &format!("c15/{}/lup-span-differs", cn),
                                 &format!("{} at={:X} want={} lup={}", case.desc(idx), lo, hx(want), hx(&b)));
                         }
